@@ -45,8 +45,20 @@ CLAIMS = {
 
 PENDING = {}
 
+CORPUS_NOTE = "Trusts the reference interpreter (vf/corpus/src/interp.rs, written from the documentation and Appendix A of DESIGN.md, never reading darling's output) and rustc; programs outside the closed field-type set {bool,u8,i64,String,char,Option,Vec(multiple),HashMap<String,_>,nested struct/enum/boxed receivers} are not generated."
+CORPUS_TECH = "runtime monitoring: generated receiver programs compiled against the working tree and driven over a line protocol; replies judged online by an executable reference interpreter"
+CLAIMS.update({
+    "C01": dict(engine="corpus", text="Held on K generated receiver programs (all six traits, the derive option space, nesting to depth 2-3) x N mistake-free inputs each: the dumped value equals the reference interpreter's value field by field; every value source (defaults, from_none, from_word, from_ident, with, map, and_then, container transforms) is tagged so a wrong source is visible.", note=CORPUS_NOTE, technique=CORPUS_TECH),
+    "C02": dict(engine="corpus", text="Held on K programs x N inputs with 0..8 injected mistakes at any depth (incl. maps, enum variants, struct variants, flatten members, several attributes): Ok iff no mistake, len() equals the predicted number of leaves, and observed leaves correspond one-to-one to predicted ones on (path, kind family, named item).", note=CORPUS_NOTE, technique=CORPUS_TECH),
+    "C03": dict(engine="direct+corpus", text="Algebra: random with_span/at/multiple/flatten histories keep the first span, flatten keeps or inherits spans, diagnostics carry them. Corpus: every matched error leaf's span lies inside the predicted item / value / name byte range; unspanned only where nothing encloses and then the diagnostic renders the path.", note=CORPUS_NOTE + " Spans are byte ranges of proc-macro2's fallback source map (span-locations).", technique=CORPUS_TECH + "; plus model-checked operation histories on Error values"),
+    "C08": dict(engine="corpus", text="Held on K element-level receivers (5 traits, 0..3 attribute names, forward_attrs absent/bare/list/empty, attrs plain or with-converter) x item sequences x 2..7 partitions into attributes with empty / bare / foreign attributes interspersed: every partition gives the reply of the single-attribute form, equals the interpreter's value (incl. the forwarded attributes token-for-token in order).", note=CORPUS_NOTE, technique=CORPUS_TECH + "; metamorphic comparison across partitions"),
+    "C09": dict(engine="corpus", text="Held on K enum receivers x the full grid of (every variant name + near-miss, skipped, Rust-spelled and unknown names) x 19 forms (string, word, name-value of each literal kind, list with 0..3 items, literal item, non-literal expression, direct from_string / from_word / from_none): value or errors equal the interpreter's selection rule.", note=CORPUS_NOTE, technique=CORPUS_TECH),
+    "C17": dict(engine="direct+corpus", text="API: random names / candidate lists against an independent argmax over Jaro-Winkler with the 0.8 threshold, sibling alternates at the origin / after at() / on bundles. Corpus: every unknown-name leaf's suggestion is a maximal candidate among the names valid at that position (skipped / flatten members excluded, parent names only for names the flatten member received directly), the suggested name re-sent in place is accepted, and a corpus built without the `suggestions` feature shows the same errors with no suggestion.", note=CORPUS_NOTE + " strsim::jaro_winkler is third-party and is the metric.", technique=CORPUS_TECH + "; feature-off configuration rebuilt and compared"),
+})
+
 ENGINES = [
-    {"name": "direct", "path": "vf/direct", "kind_free_text": "E1: in-process runtime monitors over darling's library API with model-based / differential oracles, 16 seeded workers"},
+    {"name": "direct", "path": "vf/direct", "kind_free_text": "E1/E2: in-process runtime monitors over darling's library API and derive functions with model-based / differential oracles, 16 seeded workers"},
+    {"name": "corpus", "path": "vf/corpus", "kind_free_text": "E3: generator of receiver crates (programs), compiled against /repo, driven over stdin/stdout by a monitor holding the specs and a reference interpreter"},
 ]
 
 
